@@ -108,12 +108,24 @@ def statement_components(anchor):
     return comps
 
 
-def proof_components(anchor):
+def proof_components(anchor, facts=None):
     out = []
+    listed = set()
     for ent in anchor.info["proof"]:
         adt, fld = ent[0], ent[1]
+        listed.add((adt, fld))
         comp = ("field", adt, fld) + ((ent[2],) if len(ent) > 2 and ent[2] else ())
         out.append(("proof:%s.%s" % (adt.rsplit("::", 1)[-1], fld), comp))
+    # every other field of the crate's own proof structs is a proof component too (a field added later
+    # must be consumed by the verifier like the rest)
+    if facts is not None:
+        for adt in sorted({a for a, _ in listed}):
+            d = facts.adts.get(adt)
+            if not d or d["kind"] != "Struct":
+                continue
+            for fd in d["variants"][0]["fields"]:
+                if (adt, fd["name"]) not in listed and not fd["ty"].startswith("std::marker::PhantomData"):
+                    out.append(("proof:%s.%s" % (adt.rsplit("::", 1)[-1], fd["name"]), ("field", adt, fd["name"])))
     return out
 
 
